@@ -10,6 +10,7 @@
 #include <string.h>
 
 #include "binson_parser.h"
+#include "binson_verif.h"
 
 /*======= Local Macro Definitions ===========================================*/
 /*======= Type Definitions ==================================================*/
@@ -80,6 +81,24 @@ static bool _check_boundary(size_t a,
 bool binson_parser_init_object(binson_parser *parser,
                                const uint8_t *buffer,
                                size_t buffer_size)
+VC_REQUIRES(VC_FRESH(parser, sizeof(*parser)) && parser->max_depth >= 1 &&
+            VC_FRESH(parser->state, (size_t) parser->max_depth * sizeof(binson_state)) &&
+            buffer_size <= VC_MAX_BUF && VC_FRESH(buffer, buffer_size))
+VC_ASSIGNS(parser->cb, parser->cb_context, parser->buffer, parser->buffer_size, parser->type,
+           VC_NAV_FRAME(parser))
+
+VC_ENSURES(parser->cb == NULL && parser->cb_context == NULL && parser->buffer == buffer &&
+           parser->buffer_size == buffer_size && parser->type == VC_PT_OBJECT &&
+           parser->max_depth == VC_OLD(parser->max_depth) && parser->state == VC_OLD(parser->state)) /*@ init-config */
+VC_ENSURES(VC_RET == (buffer_size >= 2 &&
+           ((VC_PT_OBJECT == VC_PT_OBJECT && buffer[0] == 0x40 && buffer[buffer_size - 1] == 0x41) ||
+            (VC_PT_OBJECT == VC_PT_ARRAY && buffer[0] == 0x42 && buffer[buffer_size - 1] == 0x43))))     /*@ init-iff */
+VC_ENSURES(!VC_RET ==> (parser->error_flags == ((buffer_size < 2) ? BINSON_ERROR_RANGE : BINSON_ERROR_FORMAT) &&
+                        parser->depth == 0))                                                        /*@ init-reject-canonical */
+VC_ENSURES(VC_RET ==> (parser->error_flags == BINSON_ERROR_NONE && parser->buffer_used == 0 &&
+                       parser->depth == ((VC_PT_OBJECT == VC_PT_ARRAY) ? 1 : 0)))                         /*@ init-canonical */
+VC_ENSURES((VC_RET && vc_k < parser->max_depth) ==> VC_LEVEL_ZERO(&parser->state[vc_k]))          /*@ init-state-zero */
+VC_ENSURES(VC_INV(parser))                                                                         /*@ inv-established */
 {
     return _binson_parser_init(parser, buffer, buffer_size, BINSON_PTYPE_OBJECT);
 }
@@ -87,11 +106,50 @@ bool binson_parser_init_object(binson_parser *parser,
 bool binson_parser_init_array(binson_parser *parser,
                               const uint8_t *buffer,
                               size_t buffer_size)
+VC_REQUIRES(VC_FRESH(parser, sizeof(*parser)) && parser->max_depth >= 1 &&
+            VC_FRESH(parser->state, (size_t) parser->max_depth * sizeof(binson_state)) &&
+            buffer_size <= VC_MAX_BUF && VC_FRESH(buffer, buffer_size))
+VC_ASSIGNS(parser->cb, parser->cb_context, parser->buffer, parser->buffer_size, parser->type,
+           VC_NAV_FRAME(parser))
+
+VC_ENSURES(parser->cb == NULL && parser->cb_context == NULL && parser->buffer == buffer &&
+           parser->buffer_size == buffer_size && parser->type == VC_PT_ARRAY &&
+           parser->max_depth == VC_OLD(parser->max_depth) && parser->state == VC_OLD(parser->state)) /*@ init-config */
+VC_ENSURES(VC_RET == (buffer_size >= 2 &&
+           ((VC_PT_ARRAY == VC_PT_OBJECT && buffer[0] == 0x40 && buffer[buffer_size - 1] == 0x41) ||
+            (VC_PT_ARRAY == VC_PT_ARRAY && buffer[0] == 0x42 && buffer[buffer_size - 1] == 0x43))))     /*@ init-iff */
+VC_ENSURES(!VC_RET ==> (parser->error_flags == ((buffer_size < 2) ? BINSON_ERROR_RANGE : BINSON_ERROR_FORMAT) &&
+                        parser->depth == 0))                                                        /*@ init-reject-canonical */
+VC_ENSURES(VC_RET ==> (parser->error_flags == BINSON_ERROR_NONE && parser->buffer_used == 0 &&
+                       parser->depth == ((VC_PT_ARRAY == VC_PT_ARRAY) ? 1 : 0)))                         /*@ init-canonical */
+VC_ENSURES((VC_RET && vc_k < parser->max_depth) ==> VC_LEVEL_ZERO(&parser->state[vc_k]))          /*@ init-state-zero */
+VC_ENSURES(VC_INV(parser))                                                                         /*@ inv-established */
 {
     return _binson_parser_init(parser, buffer, buffer_size, BINSON_PTYPE_ARRAY);
 }
 
 bool binson_parser_reset(binson_parser *parser)
+VC_REQUIRES(VC_PTRS(parser))
+VC_ASSIGNS(VC_NAV_FRAME(parser))
+VC_ENSURES(VC_SAME_CONFIG(parser) && parser->cb == VC_OLD(parser->cb))
+VC_ENSURES(VC_RET == (parser->buffer_size >= 2 &&
+           ((parser->type == VC_PT_OBJECT && parser->buffer[0] == 0x40 &&
+             parser->buffer[parser->buffer_size - 1] == 0x41) ||
+            (parser->type == VC_PT_ARRAY && parser->buffer[0] == 0x42 &&
+             parser->buffer[parser->buffer_size - 1] == 0x43))))                                /*@ reset-iff */
+VC_ENSURES(parser->buffer_size < 2 ==> parser->error_flags == BINSON_ERROR_RANGE)               /*@ reset-range */
+VC_ENSURES((!VC_RET && parser->buffer_size >= 2 &&
+            (parser->type == VC_PT_OBJECT || parser->type == VC_PT_ARRAY)) ==>
+           parser->error_flags == BINSON_ERROR_FORMAT)                                           /*@ reset-format */
+VC_ENSURES((!VC_RET && parser->buffer_size >= 2 &&
+            !(parser->type == VC_PT_OBJECT || parser->type == VC_PT_ARRAY)) ==>
+           parser->error_flags == VC_OLD(parser->error_flags))
+VC_ENSURES(VC_RET ==> (parser->error_flags == BINSON_ERROR_NONE && parser->buffer_used == 0 &&
+                       parser->depth == ((parser->type == VC_PT_ARRAY) ? 1 : 0)))                /*@ reset-canonical */
+VC_ENSURES((VC_RET && vc_k < parser->max_depth) ==> VC_LEVEL_ZERO(&parser->state[vc_k]))        /*@ reset-state-zero */
+VC_ENSURES(VC_RET ==> VC_LEVEL_ZERO(&parser->state[0]))                                          /*@ reset-level0-zero */
+VC_ENSURES(!VC_RET ==> parser->depth == 0)                                                       /*@ reject-canonical */
+VC_ENSURES(VC_PTR_EQ(parser->current_state, &parser->state[0]))                                  /*@ reset-current-state */
 {
     if ((NULL == parser) ||
         (NULL == parser->buffer) ||
@@ -153,6 +211,16 @@ bool binson_parser_reset(binson_parser *parser)
 }
 
 bool binson_parser_verify(binson_parser *parser)
+VC_REQUIRES(VC_PTRS(parser) && parser->cb == NULL &&
+            (parser->type == VC_PT_OBJECT || parser->type == VC_PT_ARRAY))
+VC_ASSIGNS(VC_NAV_FRAME(parser))
+VC_ENSURES(VC_SAME_CONFIG(parser) && parser->cb == VC_OLD(parser->cb))
+VC_ENSURES(VC_INV(parser))                                                                         /*@ inv-preserved */
+VC_ENSURES(VC_RET ==> (parser->error_flags == BINSON_ERROR_NONE && parser->buffer_used == 0 &&
+                       parser->depth == ((parser->type == VC_PT_ARRAY) ? 1 : 0) &&
+                       parser->current_state == &parser->state[0]))                               /*@ verify-canonical */
+VC_ENSURES((VC_RET && vc_k < parser->max_depth) ==> VC_LEVEL_ZERO(&parser->state[vc_k]))          /*@ verify-state-zero */
+VC_ENSURES(!VC_RET ==> parser->error_flags != BINSON_ERROR_NONE)                                   /*@ verify-false-has-error */
 {
 
     if (!binson_parser_reset(parser)) {
@@ -168,11 +236,25 @@ bool binson_parser_verify(binson_parser *parser)
 }
 
 size_t binson_parser_get_depth(binson_parser *parser)
+VC_REQUIRES(VC_FRESH(parser, sizeof(*parser)))
+VC_ASSIGNS()
+VC_ENSURES(VC_RET == parser->depth)                                                                /*@ get-depth-exact */
 {
     return (NULL != parser) ? parser->depth : 0;
 }
 
 bool binson_parser_next(binson_parser *parser)
+VC_REQUIRES(VC_PTRS(parser) && VC_INV(parser))
+VC_ASSIGNS(VC_NAV_FRAME(parser))
+VC_ENSURES(VC_SAME_CONFIG(parser) && parser->cb == VC_OLD(parser->cb))
+VC_ENSURES(VC_INV(parser))                                                                         /*@ inv-preserved */
+VC_ENSURES(VC_OLD(parser->error_flags) != BINSON_ERROR_NONE ==>
+           (!VC_RET && parser->error_flags == VC_OLD(parser->error_flags) &&
+            parser->buffer_used == VC_OLD(parser->buffer_used) && parser->depth == VC_OLD(parser->depth) &&
+            parser->current_state == VC_OLD(parser->current_state)))                               /*@ latch */
+VC_ENSURES(VC_RET ==> parser->error_flags == BINSON_ERROR_NONE)                                    /*@ true-no-error */
+VC_ENSURES(parser->buffer_used >= VC_OLD(parser->buffer_used) ||
+           VC_OLD(parser->error_flags) != BINSON_ERROR_NONE)                                       /*@ cursor-monotone */
 {
     if (NULL == parser) {
         return false;
@@ -182,6 +264,18 @@ bool binson_parser_next(binson_parser *parser)
 }
 
 bool binson_parser_next_ensure(binson_parser *parser, binson_type field_type)
+VC_REQUIRES(VC_PTRS(parser) && VC_INV(parser))
+VC_ASSIGNS(VC_NAV_FRAME(parser))
+VC_ENSURES(VC_SAME_CONFIG(parser) && parser->cb == VC_OLD(parser->cb))
+VC_ENSURES(VC_INV(parser))                                                                         /*@ inv-preserved */
+VC_ENSURES(VC_OLD(parser->error_flags) != BINSON_ERROR_NONE ==>
+           (!VC_RET && parser->error_flags == VC_OLD(parser->error_flags) &&
+            parser->buffer_used == VC_OLD(parser->buffer_used) && parser->depth == VC_OLD(parser->depth) &&
+            parser->current_state == VC_OLD(parser->current_state)))                               /*@ latch */
+VC_ENSURES(VC_RET ==> parser->error_flags == BINSON_ERROR_NONE)                                    /*@ true-no-error */
+VC_ENSURES(parser->buffer_used >= VC_OLD(parser->buffer_used) ||
+           VC_OLD(parser->error_flags) != BINSON_ERROR_NONE)                                       /*@ cursor-monotone */
+VC_ENSURES(VC_RET ==> parser->current_state->current_type == field_type)                          /*@ ensure-type */
 {
 
     if (!binson_parser_next(parser)) {
@@ -197,6 +291,11 @@ bool binson_parser_next_ensure(binson_parser *parser, binson_type field_type)
 }
 
 binson_type binson_parser_get_type(binson_parser *parser)
+VC_REQUIRES(VC_PTRS(parser) && VC_INV(parser))
+
+VC_ASSIGNS()
+VC_ENSURES(VC_RET == ((parser->error_flags == BINSON_ERROR_NONE) ? parser->current_state->current_type
+                                                                 : BINSON_TYPE_NONE))              /*@ getter-type */
 {
     if ((NULL != parser) &&
         (BINSON_ERROR_NONE == parser->error_flags) &&
@@ -280,6 +379,17 @@ bool binson_parser_field_ensure_with_length(binson_parser *parser,
 
 
 bool binson_parser_go_into_object(binson_parser *parser)
+VC_REQUIRES(VC_PTRS(parser) && VC_INV(parser))
+VC_ASSIGNS(VC_NAV_FRAME(parser))
+VC_ENSURES(VC_SAME_CONFIG(parser) && parser->cb == VC_OLD(parser->cb))
+VC_ENSURES(VC_INV(parser))                                                                         /*@ inv-preserved */
+VC_ENSURES(VC_OLD(parser->error_flags) != BINSON_ERROR_NONE ==>
+           (!VC_RET && parser->error_flags == VC_OLD(parser->error_flags) &&
+            parser->buffer_used == VC_OLD(parser->buffer_used) && parser->depth == VC_OLD(parser->depth) &&
+            parser->current_state == VC_OLD(parser->current_state)))                               /*@ latch */
+VC_ENSURES(VC_RET ==> parser->error_flags == BINSON_ERROR_NONE)                                    /*@ true-no-error */
+VC_ENSURES(parser->buffer_used >= VC_OLD(parser->buffer_used) ||
+           VC_OLD(parser->error_flags) != BINSON_ERROR_NONE)                                       /*@ cursor-monotone */
 {
     if (NULL == parser) {
         return false;
@@ -289,6 +399,17 @@ bool binson_parser_go_into_object(binson_parser *parser)
 }
 
 bool binson_parser_leave_object(binson_parser *parser)
+VC_REQUIRES(VC_PTRS(parser) && VC_INV(parser))
+VC_ASSIGNS(VC_NAV_FRAME(parser))
+VC_ENSURES(VC_SAME_CONFIG(parser) && parser->cb == VC_OLD(parser->cb))
+VC_ENSURES(VC_INV(parser))                                                                         /*@ inv-preserved */
+VC_ENSURES(VC_OLD(parser->error_flags) != BINSON_ERROR_NONE ==>
+           (!VC_RET && parser->error_flags == VC_OLD(parser->error_flags) &&
+            parser->buffer_used == VC_OLD(parser->buffer_used) && parser->depth == VC_OLD(parser->depth) &&
+            parser->current_state == VC_OLD(parser->current_state)))                               /*@ latch */
+VC_ENSURES(VC_RET ==> parser->error_flags == BINSON_ERROR_NONE)                                    /*@ true-no-error */
+VC_ENSURES(parser->buffer_used >= VC_OLD(parser->buffer_used) ||
+           VC_OLD(parser->error_flags) != BINSON_ERROR_NONE)                                       /*@ cursor-monotone */
 {
     if (NULL == parser) {
         return false;
@@ -308,6 +429,17 @@ bool binson_parser_leave_object(binson_parser *parser)
 }
 
 bool binson_parser_go_into_array(binson_parser *parser)
+VC_REQUIRES(VC_PTRS(parser) && VC_INV(parser))
+VC_ASSIGNS(VC_NAV_FRAME(parser))
+VC_ENSURES(VC_SAME_CONFIG(parser) && parser->cb == VC_OLD(parser->cb))
+VC_ENSURES(VC_INV(parser))                                                                         /*@ inv-preserved */
+VC_ENSURES(VC_OLD(parser->error_flags) != BINSON_ERROR_NONE ==>
+           (!VC_RET && parser->error_flags == VC_OLD(parser->error_flags) &&
+            parser->buffer_used == VC_OLD(parser->buffer_used) && parser->depth == VC_OLD(parser->depth) &&
+            parser->current_state == VC_OLD(parser->current_state)))                               /*@ latch */
+VC_ENSURES(VC_RET ==> parser->error_flags == BINSON_ERROR_NONE)                                    /*@ true-no-error */
+VC_ENSURES(parser->buffer_used >= VC_OLD(parser->buffer_used) ||
+           VC_OLD(parser->error_flags) != BINSON_ERROR_NONE)                                       /*@ cursor-monotone */
 {
     if (NULL == parser) {
         return false;
@@ -317,6 +449,17 @@ bool binson_parser_go_into_array(binson_parser *parser)
 }
 
 bool binson_parser_leave_array(binson_parser *parser)
+VC_REQUIRES(VC_PTRS(parser) && VC_INV(parser))
+VC_ASSIGNS(VC_NAV_FRAME(parser))
+VC_ENSURES(VC_SAME_CONFIG(parser) && parser->cb == VC_OLD(parser->cb))
+VC_ENSURES(VC_INV(parser))                                                                         /*@ inv-preserved */
+VC_ENSURES(VC_OLD(parser->error_flags) != BINSON_ERROR_NONE ==>
+           (!VC_RET && parser->error_flags == VC_OLD(parser->error_flags) &&
+            parser->buffer_used == VC_OLD(parser->buffer_used) && parser->depth == VC_OLD(parser->depth) &&
+            parser->current_state == VC_OLD(parser->current_state)))                               /*@ latch */
+VC_ENSURES(VC_RET ==> parser->error_flags == BINSON_ERROR_NONE)                                    /*@ true-no-error */
+VC_ENSURES(parser->buffer_used >= VC_OLD(parser->buffer_used) ||
+           VC_OLD(parser->error_flags) != BINSON_ERROR_NONE)                                       /*@ cursor-monotone */
 {
     if (NULL == parser) {
         return false;
@@ -335,6 +478,18 @@ bool binson_parser_leave_array(binson_parser *parser)
 }
 
 bbuf *binson_parser_get_name(binson_parser *parser)
+VC_REQUIRES(VC_PTRS(parser) && VC_INV(parser))
+
+VC_ASSIGNS(parser->error_flags)
+VC_ENSURES(VC_OLD(parser->error_flags) != BINSON_ERROR_NONE ==>
+           (VC_RET == NULL && parser->error_flags == VC_OLD(parser->error_flags)))                 /*@ getter-neutral-on-error */
+VC_ENSURES((VC_OLD(parser->error_flags) == BINSON_ERROR_NONE &&
+            parser->current_state->current_name.bptr != NULL) ==>
+           (VC_RET == &parser->current_state->current_name && parser->error_flags == BINSON_ERROR_NONE &&
+            VC_IN_BUF(parser, *VC_RET)))                                                           /*@ span-in-buffer */
+VC_ENSURES((VC_OLD(parser->error_flags) == BINSON_ERROR_NONE &&
+            parser->current_state->current_name.bptr == NULL) ==>
+           (VC_RET == NULL && parser->error_flags == BINSON_ERROR_STATE))                          /*@ get-name-state-error */
 {
     if ((NULL != parser) &&
         (BINSON_ERROR_NONE == parser->error_flags)) {
@@ -348,6 +503,14 @@ bbuf *binson_parser_get_name(binson_parser *parser)
 }
 
 bbuf *binson_parser_get_string_bbuf(binson_parser *parser)
+VC_REQUIRES(VC_PTRS(parser) && VC_INV(parser))
+
+VC_ASSIGNS()
+VC_ENSURES((parser->error_flags != BINSON_ERROR_NONE ||
+            parser->current_state->current_type != BINSON_TYPE_STRING) ==> VC_RET == NULL)                         /*@ getter-neutral */
+VC_ENSURES((parser->error_flags == BINSON_ERROR_NONE &&
+            parser->current_state->current_type == BINSON_TYPE_STRING) ==>
+           (VC_RET == &parser->current_state->current_value.string_value && VC_IN_BUF(parser, *VC_RET)))     /*@ span-in-buffer */
 {
     if ((NULL != parser) &&
         (BINSON_ERROR_NONE == parser->error_flags) &&
@@ -396,6 +559,14 @@ bool binson_parser_get_raw(binson_parser *parser, bbuf *raw)
 }
 
 int64_t binson_parser_get_integer(binson_parser *parser)
+VC_REQUIRES(VC_PTRS(parser) && VC_INV(parser))
+
+VC_ASSIGNS()
+VC_ENSURES((parser->error_flags != BINSON_ERROR_NONE ||
+            parser->current_state->current_type != BINSON_TYPE_INTEGER) ==> VC_RET == 0)                           /*@ getter-neutral */
+VC_ENSURES((parser->error_flags == BINSON_ERROR_NONE &&
+            parser->current_state->current_type == BINSON_TYPE_INTEGER) ==>
+           VC_RET == parser->current_state->current_value.integer_value)                                      /*@ getter-exact */
 {
     if ((NULL != parser) &&
         (BINSON_ERROR_NONE == parser->error_flags) &&
@@ -408,6 +579,14 @@ int64_t binson_parser_get_integer(binson_parser *parser)
 }
 
 bool binson_parser_get_boolean(binson_parser *parser)
+VC_REQUIRES(VC_PTRS(parser) && VC_INV(parser))
+
+VC_ASSIGNS()
+VC_ENSURES((parser->error_flags != BINSON_ERROR_NONE ||
+            parser->current_state->current_type != BINSON_TYPE_BOOLEAN) ==> VC_RET == false)                           /*@ getter-neutral */
+VC_ENSURES((parser->error_flags == BINSON_ERROR_NONE &&
+            parser->current_state->current_type == BINSON_TYPE_BOOLEAN) ==>
+           VC_RET == parser->current_state->current_value.bool_value)                                      /*@ getter-exact */
 {
     if ((NULL != parser) &&
         (BINSON_ERROR_NONE == parser->error_flags) &&
@@ -420,6 +599,10 @@ bool binson_parser_get_boolean(binson_parser *parser)
 }
 
 double binson_parser_get_double(binson_parser *parser)
+VC_REQUIRES(VC_PTRS(parser) && VC_INV(parser))
+VC_ASSIGNS()
+VC_ENSURES((parser->error_flags != BINSON_ERROR_NONE ||
+            parser->current_state->current_type != BINSON_TYPE_DOUBLE) ==> VC_RET == 0.0)          /*@ getter-neutral */
 {
     if ((NULL != parser) &&
         (BINSON_ERROR_NONE == parser->error_flags) &&
@@ -433,6 +616,14 @@ double binson_parser_get_double(binson_parser *parser)
 }
 
 bbuf *binson_parser_get_bytes_bbuf(binson_parser *parser)
+VC_REQUIRES(VC_PTRS(parser) && VC_INV(parser))
+
+VC_ASSIGNS()
+VC_ENSURES((parser->error_flags != BINSON_ERROR_NONE ||
+            parser->current_state->current_type != BINSON_TYPE_BYTES) ==> VC_RET == NULL)                         /*@ getter-neutral */
+VC_ENSURES((parser->error_flags == BINSON_ERROR_NONE &&
+            parser->current_state->current_type == BINSON_TYPE_BYTES) ==>
+           (VC_RET == &parser->current_state->current_value.bytes_value && VC_IN_BUF(parser, *VC_RET)))     /*@ span-in-buffer */
 {
     if ((NULL != parser) &&
         (BINSON_ERROR_NONE == parser->error_flags) &&
@@ -722,6 +913,25 @@ static bool _binson_parser_init(binson_parser *parser,
                                 const uint8_t *buffer,
                                 size_t buffer_size,
                                 uint8_t type)
+VC_REQUIRES(VC_FRESH(parser, sizeof(*parser)) && parser->max_depth >= 1 &&
+            VC_FRESH(parser->state, (size_t) parser->max_depth * sizeof(binson_state)) &&
+            buffer_size <= VC_MAX_BUF && VC_FRESH(buffer, buffer_size))
+VC_ASSIGNS(parser->cb, parser->cb_context, parser->buffer, parser->buffer_size, parser->type,
+           VC_NAV_FRAME(parser))
+VC_REQUIRES(type == VC_PT_OBJECT || type == VC_PT_ARRAY)
+
+VC_ENSURES(parser->cb == NULL && parser->cb_context == NULL && parser->buffer == buffer &&
+           parser->buffer_size == buffer_size && parser->type == type &&
+           parser->max_depth == VC_OLD(parser->max_depth) && parser->state == VC_OLD(parser->state)) /*@ init-config */
+VC_ENSURES(VC_RET == (buffer_size >= 2 &&
+           ((type == VC_PT_OBJECT && buffer[0] == 0x40 && buffer[buffer_size - 1] == 0x41) ||
+            (type == VC_PT_ARRAY && buffer[0] == 0x42 && buffer[buffer_size - 1] == 0x43))))     /*@ init-iff */
+VC_ENSURES(!VC_RET ==> (parser->error_flags == ((buffer_size < 2) ? BINSON_ERROR_RANGE : BINSON_ERROR_FORMAT) &&
+                        parser->depth == 0))                                                        /*@ init-reject-canonical */
+VC_ENSURES(VC_RET ==> (parser->error_flags == BINSON_ERROR_NONE && parser->buffer_used == 0 &&
+                       parser->depth == ((type == VC_PT_ARRAY) ? 1 : 0)))                         /*@ init-canonical */
+VC_ENSURES((VC_RET && vc_k < parser->max_depth) ==> VC_LEVEL_ZERO(&parser->state[vc_k]))          /*@ init-state-zero */
+VC_ENSURES(VC_INV(parser))                                                                         /*@ inv-established */
 {
     if ((NULL == parser) ||
         (NULL == buffer) ||
@@ -741,12 +951,30 @@ static bool _binson_parser_init(binson_parser *parser,
 }
 
 static bool _parse_integer(bbuf *length_data, int64_t *value, bool check_boundaries)
+VC_REQUIRES(VC_FRESH(length_data, sizeof(*length_data)) && VC_FRESH(value, sizeof(*value)))
+VC_REQUIRES(length_data->bsize >= 1 && length_data->bsize <= 8 &&
+            VC_FRESH(length_data->bptr, length_data->bsize))
+VC_ENSURES(length_data->bsize == 1 ==> *value == VC_S8(length_data->bptr))                    /*@ int-sext-8 */
+VC_ENSURES(length_data->bsize == 2 ==> *value == VC_S16(length_data->bptr))                   /*@ int-sext-16 */
+VC_ENSURES(length_data->bsize == 4 ==> *value == VC_S32(length_data->bptr))                   /*@ int-sext-32 */
+VC_ENSURES(length_data->bsize == 8 ==> (uint64_t) *value == VC_LE64(length_data->bptr))       /*@ int-sext-64 */
+VC_ENSURES(check_boundaries ==> VC_RET ==
+           ((length_data->bsize == 1) ||
+            (length_data->bsize == 2 && !VC_FITS8(*value)) ||
+            (length_data->bsize == 4 && !VC_FITS16(*value)) ||
+            (length_data->bsize == 8 && !VC_FITS32(*value))))                                  /*@ int-minimal-iff */
+VC_ENSURES(!check_boundaries ==> VC_RET == (length_data->bsize == 8))                         /*@ double-needs-8 */
+VC_ASSIGNS(*value)
 {
     /* prefill with ones or zeroes depending of sign presence */
     uint64_t ui64 = (length_data->bptr[length_data->bsize - 1] & 0x80) ? ~0ULL : 0;
     size_t i;
 
-    for (i = length_data->bsize; i > 0; i--) {
+    for (i = length_data->bsize; i > 0; i--)
+    VC_LOOP_ASSIGNS(i, ui64)
+    VC_LOOP_INVARIANT(i <= length_data->bsize)
+    VC_DECREASES(i)
+    {
         ui64 <<= 8;
         ui64 |= length_data->bptr[i-1];
     }
@@ -896,6 +1124,18 @@ static uint16_t _process_one(binson_parser *parser, bbuf *consumed, size_t *byte
 }
 
 static bool _advance_parsing(binson_parser *parser, uint8_t scan_flags, bbuf *scan_name)
+VC_REQUIRES(VC_PTRS(parser) && VC_INV(parser))
+VC_REQUIRES(scan_name == NULL ||
+            (VC_FRESH(scan_name, sizeof(*scan_name)) && scan_name->bsize <= VC_MAX_NAME &&
+             VC_FRESH(scan_name->bptr, scan_name->bsize)))
+VC_ASSIGNS(VC_NAV_FRAME(parser))
+VC_ENSURES(VC_SAME_CONFIG(parser) && parser->cb == VC_OLD(parser->cb))
+VC_ENSURES(VC_ADV_POST_INV(parser, VC_PTR_EQ, VC_ALL_LEVELS))                                    /*@ adv-inv */
+VC_ENSURES(VC_ADV_POST_LATCH(parser, VC_RET, VC_OLD(parser->error_flags), VC_OLD(parser->buffer_used),
+                             VC_OLD(parser->depth), VC_OLD(parser->current_state)))               /*@ adv-latch */
+VC_ENSURES(VC_ADV_POST_TRUE_NO_ERROR(parser, VC_RET))                                             /*@ adv-true-no-error */
+VC_ENSURES(VC_ADV_POST_MONOTONE(parser, VC_OLD(parser->error_flags), VC_OLD(parser->buffer_used))) /*@ adv-cursor-monotone */
+VC_ENSURES(VC_ADV_POST_VERIFY_FALSE(VC_RET, scan_flags))                                          /*@ adv-verify-never-true */
 {
 
     if (BINSON_ERROR_NONE != parser->error_flags) {
@@ -909,7 +1149,16 @@ static bool _advance_parsing(binson_parser *parser, uint8_t scan_flags, bbuf *sc
     binson_state *state = parser->current_state;
     uint_fast8_t orig_array_depth = state->array_depth;
     uint_fast8_t orig_object_depth = parser->depth;
-    while (proceed) {
+    while (proceed)
+    VC_LOOP_ASSIGNS(proceed, state, consumed, next_state, bytes_consumed, scan_flags,
+                    parser->depth, parser->buffer_used, parser->error_flags, parser->current_state,
+                    __CPROVER_object_whole(parser->state))
+    VC_LOOP_INVARIANT(VC_ADV_LOOP_INV(parser))
+    VC_LOOP_INVARIANT(parser->buffer_used >= __CPROVER_loop_entry(parser->buffer_used))
+    VC_LOOP_INVARIANT(((scan_flags & VC_ADV_VERIFY) != 0) ==> proceed)
+    VC_LOOP_INVARIANT((scan_flags & VC_ADV_VERIFY) == (__CPROVER_loop_entry(scan_flags) & VC_ADV_VERIFY))
+    VC_DECREASES(proceed ? (parser->buffer_size - parser->buffer_used) + 1 : 0)
+    {
         proceed = false;
         state = &parser->state[(parser->depth > 0) ? parser->depth - 1 : 0];
 
@@ -1222,6 +1471,17 @@ static bool _consume(binson_parser *parser,
                      bbuf *data,
                      size_t size,
                      bool peek)
+VC_REQUIRES(VC_FRESH(parser, sizeof(*parser)) && VC_FRESH(data, sizeof(*data)))
+VC_REQUIRES(parser->buffer_size <= VC_MAX_BUF && VC_FRESH(parser->buffer, parser->buffer_size))
+VC_REQUIRES(parser->buffer_used <= parser->buffer_size)
+VC_ENSURES(VC_RET == (size <= VC_OLD(parser->buffer_size) - VC_OLD(parser->buffer_used)))    /*@ consume-iff-fits */
+VC_ENSURES(VC_RET ==> (data->bptr == VC_OLD(parser->buffer) + VC_OLD(parser->buffer_used) &&
+                       data->bsize == size))                                                   /*@ consume-span-exact */
+VC_ENSURES(VC_RET ==> parser->buffer_used == VC_OLD(parser->buffer_used) + (peek ? 0 : size)) /*@ consume-cursor */
+VC_ENSURES(VC_RET ==> parser->error_flags == VC_OLD(parser->error_flags))                     /*@ consume-keeps-error */
+VC_ENSURES(!VC_RET ==> (parser->error_flags == BINSON_ERROR_RANGE &&
+                        parser->buffer_used == VC_OLD(parser->buffer_used)))                   /*@ consume-range */
+VC_ASSIGNS(data->bptr, data->bsize, parser->buffer_used, parser->error_flags)
 {
 
     if (!_check_boundary(parser->buffer_used, size, parser->buffer_size)) {
@@ -1243,6 +1503,8 @@ static bool _consume(binson_parser *parser,
 static bool _check_boundary(size_t a,
                             size_t b,
                             size_t max)
+VC_ENSURES(VC_RET == (((size_t) (a + b) >= a) && ((size_t) (a + b) <= max)))    /*@ boundary-iff */
+VC_ASSIGNS()
 {
     size_t c = a + b;
 
